@@ -19,9 +19,9 @@ ASSUMPTIONS = ["a base argument is in range (< 4); rank arguments are < 4^K; the
 
 def run(F, rep):
     rep.engines.update(["E2-BV", "E1"])
-    common.kmer_floor(F, rep)
-    lemmas.ladder_lemmas(F, rep)
-    common.run_kmer_lemmas(F, rep, {"len", "empty", "get", "set", "slice", "rc", "ext", "rank", "ham", "atgc"})
-    dt_seq.kmer_default_tables(F, rep, "C10.defaults")
+    rep.run(common.kmer_floor, F, rep)
+    rep.run(lemmas.ladder_lemmas, F, rep)
+    rep.run(common.run_kmer_lemmas, F, rep, {"len", "empty", "get", "set", "slice", "rc", "ext", "rank", "ham", "atgc"})
+    rep.run(dt_seq.kmer_default_tables, F, rep, "C10.defaults")
     for ty in common.kmer_type_names(F):
-        lemmas.kmer_default_lemmas(F, rep, ty, rule="L-default")
+        rep.run(lemmas.kmer_default_lemmas, F, rep, ty, rule="L-default")
